@@ -7,15 +7,14 @@ git checkout -q -- . ; : > $L
 git apply --check $S/patch.diff || { echo "patch does not apply" >> $L; exit 1; }
 build_demo() {
   if [ -f $S/demo.c ]; then
-    cmd=$(grep -m1 -oE '(cc|gcc|clang) [^*]*demo\.c[^*]*' $S/demo.c | sed 's/\*\/.*//')
-    [ -z "$cmd" ] && cmd="cc -O1 -I$WT/lib -DZSTD_STATIC_LINKING_ONLY $S/demo.c $WT/lib/libzstd.a -lpthread -o $S/demo"
-    (cd $S && eval "$cmd") >> $L 2>&1
+    rm -f $S/demo
+    (cc -O1 -I$WT/lib -I$WT/lib/common -I$WT/doc/educational_decoder -I$WT/contrib/seekable_format -o $S/demo $S/demo.c $WT/lib/libzstd.a -lpthread) >> $L 2>&1 || \
+    (cc -O1 -DZSTD_MULTITHREAD -I$WT/lib -I$WT/lib/common -I$WT/contrib/seekable_format -o $S/demo $S/demo.c $WT/contrib/seekable_format/*.c $WT/lib/common/*.c $WT/lib/compress/*.c $WT/lib/decompress/*.c $WT/lib/dictBuilder/*.c $WT/lib/decompress/*.S -lpthread) >> $L 2>&1
   fi
 }
 run_demo() {
   if [ -f $S/demo.sh ] && [ ! -f $S/demo.c ]; then (cd $S && bash ./demo.sh) >> $L 2>&1; return $?; fi
-  exe=$(ls -t $S | grep -vE '\.(c|sh|json|diff|log|txt)$' | head -1)
-  (cd $S && ./$exe) >> $L 2>&1
+  (cd $S && ./demo) >> $L 2>&1
 }
 echo "== WITH patch" >> $L
 git apply $S/patch.diff
